@@ -930,20 +930,67 @@ func c3Any(c *Ctx) {
 		}
 		return true
 	})
-	if ts == nil {
-		// the switch may live in an unexported helper that Any delegates to
-		if sfn := c.Func(ZapPath, "Any"); sfn != nil {
-			for _, h := range Region(sfn) {
-				hd, ok := h.Syntax().(*ast.FuncDecl)
-				if !ok || h == sfn || hd.Body == nil {
-					continue
+	// the clauses examined: those of Any's own switch, or - when Any delegates - those of the switches of the helpers it
+	// calls, in the order of the calls (a helper whose switch finds nothing returns nil and Any goes on to the next: the
+	// arms of all of them in that order are one switch; only the last default is the fallback)
+	var clauses []ast.Stmt
+	if ts != nil {
+		clauses = ts.Body.List
+	} else if sfn := c.Func(ZapPath, "Any"); sfn != nil {
+		bySyntax := map[*types.Func]*ast.FuncDecl{}
+		for _, h := range Region(sfn) {
+			if hd, ok := h.Syntax().(*ast.FuncDecl); ok && h != sfn && hd.Body != nil {
+				if fo, ok := h.Object().(*types.Func); ok {
+					bySyntax[fo] = hd
 				}
-				ast.Inspect(hd.Body, func(n ast.Node) bool {
-					if s, ok := n.(*ast.TypeSwitchStmt); ok && ts == nil {
-						ts = s
+			}
+		}
+		var switches []*ast.TypeSwitchStmt
+		seenH := map[*ast.FuncDecl]bool{}
+		ast.Inspect(fd.Body, func(n ast.Node) bool {
+			call, ok := n.(*ast.CallExpr)
+			if !ok {
+				return true
+			}
+			var fo *types.Func
+			switch f := call.Fun.(type) {
+			case *ast.Ident:
+				fo, _ = info.Uses[f].(*types.Func)
+			case *ast.SelectorExpr:
+				fo, _ = info.Uses[f.Sel].(*types.Func)
+			}
+			if hd := bySyntax[fo]; hd != nil && !seenH[hd] {
+				seenH[hd] = true
+				ast.Inspect(hd.Body, func(m ast.Node) bool {
+					if sw, ok := m.(*ast.TypeSwitchStmt); ok {
+						switches = append(switches, sw)
+						return false
 					}
 					return true
 				})
+			}
+			return true
+		})
+		for i, sw := range switches {
+			if ts == nil {
+				ts = sw
+			}
+			for _, st := range sw.Body.List {
+				cc := st.(*ast.CaseClause)
+				if cc.List == nil && i+1 < len(switches) {
+					// an intermediate default must find nothing (return nil / nothing at all), or the later switches never run
+					finds := false
+					ast.Inspect(cc, func(m ast.Node) bool {
+						switch m.(type) {
+						case *ast.CallExpr, *ast.CompositeLit:
+							finds = true
+						}
+						return true
+					})
+					c.Check(!finds, "R3.3", "go.uber.org/zap.Any", "intermediate-default", cc.Pos(), "the default of a switch that is not the last one finds nothing")
+					continue
+				}
+				clauses = append(clauses, st)
 			}
 		}
 	}
@@ -958,7 +1005,7 @@ func c3Any(c *Ctx) {
 	}
 	var armsT []armT
 	hasDefault := false
-	for _, s := range ts.Body.List {
+	for _, s := range clauses {
 		cc := s.(*ast.CaseClause)
 		// body: c = anyFieldC[Y](F)
 		var inst types.Type
